@@ -282,6 +282,9 @@ def gen_case(rng, params, index):
         cwd = "." if k == 0 else rng.choice(cwds)
         scheds.append({"perm": list(perm), "cwd": cwd, "dot": [rng.chance(0.3) for _ in sources],
                        "hash_seed": 1 if k == 0 else rng.randint(2, 1 << 40), "dirent_seed": 1 if k == 0 else rng.randint(2, 1 << 40),
+                       # EIO only: glibc's readdir() turns ENOENT from getdents64 into end-of-directory (POSIX wants a directory removed while
+                       # it is read to look like EOF), so no program can report that one
+                       "dirfault": [rng.randint(0, 1 << 20), "EIO"] if rng.chance(0.3) else None,
                        "neg": None if not negatives or not rng.chance(0.25) else rng.below(len(negatives)),
                        "subset": None if k < len(perms) or not rng.chance(0.3) else rng.sample(range(len(sources)), rng.randint(1, len(sources)))})
     for i in range(len(negatives)):
@@ -451,6 +454,47 @@ def run_case(case, env):
             if obs["diags"] != b["diags"]:
                 viol.append(V("order-independence", "c18:diagnostics-differ", "%s: diagnostics of %s differ from schedule %d:\n%s\n---\n%s"
                               % (desc, s, bk, "\n".join(obs["diags"])[:600], "\n".join(b["diags"])[:600]), schedule=k))
+        # ---- a directory listing fails part-way (I/O error, directory removed while it is read): the run may fail, but
+        # when it says 0 every document resolved its components as in the fault-free run
+        if sc.get("dirfault") and res.exit_status == 0 and not neg:
+            cands = [c for c in res.calls if c.name == "getdents64" and engine.in_scope(c, sb) and (c.result or 0) > 0]
+            if cands:
+                c = cands[sc["dirfault"][0] % len(cands)]
+                sb.park()
+                try:
+                    sb.clone_in()
+                    sb.cwd = posixpath.normpath(posixpath.join(proj, cwd_rel))
+                    try:
+                        fr = sb.run(step, faults=[(c.idx, "ERR", sc["dirfault"][1])])
+                    finally:
+                        sb.cwd = old_cwd
+                    fouts = {}
+                    for s in srcs:
+                        for p in sorted(engine.predicted_outputs({"sources": [s], "O": None, "no_dyn": False, "no_lower": case["no_lower"]}, sb.root, proj)):
+                            try:
+                                fouts[sb.rel(p)] = open(p, "rb").read()
+                            except FileNotFoundError:
+                                fouts[sb.rel(p)] = None
+                    sb.drop_clone()
+                finally:
+                    sb.unpark()
+                stats["runs"] += 1
+                fired = [x for x in fr.calls if x.fault]
+                for x in fired:
+                    _bump(stats["faults_fired"], "ERR:" + x.name)
+                if fr.bound or fr.signal is not None:
+                    viol.append(V("termination", "c18:abnormal-end", "%s: under %s at a directory listing the process ended with %s" % (desc, sc["dirfault"][1], fr.disposition()), schedule=k))
+                elif fr.exit_status == 0 and fired:
+                    _bump(probes, "failed_directory_listing_survived_with_exit_0")
+                    for s in srcs:
+                        if s in base:
+                            for p, want in sorted(base[s][1]["outs"].items()):
+                                if fouts.get(p) != want:
+                                    viol.append(V("order-independence", "c18:listing-error-changes-resolution",
+                                                  "%s: %s on the listing of %s was not reported (exit 0), and output %s differs from the fault-free result\n%s"
+                                                  % (desc, sc["dirfault"][1], fired[0].fdpath, p, c08._firstdiff(want, fouts.get(p))), schedule=k))
+                elif fired:
+                    _bump(probes, "failed_directory_listing_reported_as_failure")
         if len(srcs) > 1:
             _bump(probes, "multi_source_invocations")
         if cwd_rel != ".":
